@@ -576,14 +576,16 @@ class DestHandler:
         if len(self._pdus_to_be_sent) > 0:
             raise UnretrievedPdusToBeSent(f"{len(self._pdus_to_be_sent)} packets left to send")
         if self.states.step == TransactionStep.SENDING_EOF_ACK_PDU:
-            if (
+            if self._params.completion_disposition == CompletionDisposition.CANCELED:
+                # No lost segment procedures for a cancelled transaction.
+                self.states.step = TransactionStep.TRANSFER_COMPLETION
+            elif (
                 self._params.acked_params.lost_seg_tracker.num_lost_segments > 0
                 or self._params.acked_params.metadata_missing
             ):
                 self._start_deferred_lost_segment_handling()
             else:
-                if self._params.completion_disposition != CompletionDisposition.CANCELED:
-                    self._checksum_verify()
+                self._checksum_verify()
                 self.states.step = TransactionStep.TRANSFER_COMPLETION
 
     def _start_transaction(self, metadata_pdu: MetadataPdu) -> bool:
